@@ -67,7 +67,7 @@ def check(run, repo, tier):
 def _always_removes(w, fi, table):
   """True when every normal path through UserActions helper `fi` calls
   self.doBulkRemoveRecord(<literal table>, ...)."""
-  fn = w.fn_of(fi)
+  fn = H.inlined_fn(w, fi.qualname)
   du = DefUse(fn)
   nodes = {n.id for (n, c, nm) in fn.calls() if nm == "self.doBulkRemoveRecord" and
            H.funnel_args(w, c)[0] is not None and
@@ -108,15 +108,18 @@ def r1_removal_funnel(run, w, rid):
         n_sites += 1
         run.ob(R1, fi.qualname, short(c), "a record removal is handed to the gateway only by "
                "doBulkRemoveRecord (which also clears the references to the removed rows)",
-               fi.qualname == funnel, fi=fi, node=c)
+               fi.qualname == funnel or H.is_private_part(w, fi) == (True, funnel), fi=fi,
+               node=c)
   if n_sites == 0:
     raise AnalysisError("no gateway call with a record removal found (funnel moved?)")
   # overrides
   ov = {t: f for ((a, t), f) in w.override_methods().items() if a == "BulkRemoveRecord"}
   if not ov:
     raise AnalysisError("no @override_action('BulkRemoveRecord', ...) methods found")
+  is_funnel = lambda c, nm, f: isinstance(c.func, ast.Attribute) and \
+      c.func.attr == "doBulkRemoveRecord"
   for t, fi in sorted(ov.items()):
-    fn = w.fn_of(fi)
+    fn = H.inlined_fn(w, fi.qualname)
     du = DefUse(fn)
     cfg = fn.cfg
     nodes = set()
@@ -130,12 +133,17 @@ def r1_removal_funnel(run, w, rid):
     ok = bool(nodes) and cfg.dominated_by(cfg.exit.id, nodes)
     wit = None
     if not ok:
+      direct = {n.id for (n, c, nm) in fn.calls() if is_funnel(c, nm, fn)} | nodes
+      deeper = H.may_nodes(w, fn, is_funnel, depth=3) - direct
+      if deeper and cfg.dominated_by(cfg.exit.id, nodes | deeper):
+        raise AnalysisError("%s: the funnel is reached only through a helper that could not be "
+                            "followed (%s)" % (fi.qualname, short(cfg.nodes[min(deeper)].stmt, 60)))
       wit = cfg.describe_path(cfg.path(cfg.entry.id, {cfg.exit.id}, removed=nodes))
     run.ob(R1, fi.qualname, "-> self.doBulkRemoveRecord(%r, ...)" % t,
            "the override removes the records of its own table through the funnel on every normal "
            "path", ok, witness=wit, fi=fi)
   # dispatch: BulkRemoveRecord -> overrides.get((name, table), doBulkRemoveRecord)(table, rows)
-  br = w.fn("useractions.UserActions.BulkRemoveRecord")
+  br = H.inlined_fn(w, "useractions.UserActions.BulkRemoveRecord")
   ps = br.fi.params()
   ok = False
   calls = set()
@@ -150,6 +158,12 @@ def r1_removal_funnel(run, w, rid):
           and [H.canon(br, a) for a in c.args] == [ps[1], ps[2]] and not c.keywords
       shape_ok = shape_ok and good
       calls.add(n.id)
+  if not calls:
+    mentions = lambda x: isinstance(x, ast.Attribute) and x.attr == "_overrides"
+    if not any(mentions(x) for x in ast.walk(br.node)) and \
+        H.mentions_in_reach(w, br, mentions, depth=3):
+      raise AnalysisError("BulkRemoveRecord: the override dispatch is inside a helper that "
+                          "could not be read in place")
   ok = bool(calls) and shape_ok and br.cfg.dominated_by(br.cfg.exit.id, calls) and \
       not DefUse(br).rebinders(ps[1]) and not DefUse(br).rebinders(ps[2])
   run.ob(R1, br.qualname, "self._overrides.get(('BulkRemoveRecord', table_id), "
@@ -157,9 +171,14 @@ def r1_removal_funnel(run, w, rid):
          "override, else the funnel, with its own arguments on every normal path", ok, fi=br.fi)
   for q, callee in (("useractions.UserActions.RemoveRecord", "self.BulkRemoveRecord"),
                     ("docmodel.DocModel.remove", "user_actions.BulkRemoveRecord")):
-    fn = w.fn(q)
+    fn = H.inlined_fn(w, q)
     nodes = {n.id for (n, c, nm) in fn.calls() if endswith(nm, callee)}
     others = [c for (n, c) in H.gateway_sites(fn)]
+    if not nodes and H.hidden_in_callees(
+        w, fn, lambda c, nm, f: isinstance(c.func, ast.Attribute) and
+        c.func.attr == "BulkRemoveRecord", depth=3):
+      raise AnalysisError("%s: BulkRemoveRecord is only called inside a helper that could not be "
+                          "read in place" % q)
     # DocModel.remove delegates once per table group (inside its loop); RemoveRecord on every path
     in_loop = [x for x in nodes if H.loop_heads_around(fn, fn.cfg, fn.cfg.nodes[x].stmt)]
     run.ob(R1, q, "-> %s(...)" % callee, "removal entry point delegates to the BulkRemoveRecord "
@@ -226,7 +245,7 @@ def r2_cascade(run, w):
       run.ob(R2, "useractions.UserActions", "@override_action('BulkRemoveRecord', %r)" % parent,
              "the parent table has a remover that can cascade", False, nontrivial=False)
       continue
-    top = w.fn_of(ov[parent])
+    top = H.inlined_fn(w, ov[parent].qualname)
     cands = [(top, None)]
     for (n, c, hfi) in _helper_calls(w, top):
       if top.cfg.dominated_by(top.cfg.exit.id, {n.id}):
@@ -245,6 +264,26 @@ def r2_cascade(run, w):
         break
     site = "%s.%s" % (parent, accessor)
     if not found:
+      def reads_in(f, depth, seen):
+        """the accessor is read on a record that is, or may be, one of the parent table"""
+        if f.qualname in seen:
+          return False
+        seen.add(f.qualname)
+        for x in ast.walk(f.node):
+          if isinstance(x, ast.Attribute) and x.attr == accessor and isinstance(x.ctx, ast.Load):
+            base = H.record_table_of(f, x.value, w, handles,
+                                     own_table=parent if f is top else None)
+            if base in (parent, None):
+              return True
+        if depth > 0:
+          for (n_, c_, nm_) in f.calls():
+            hfi = H.local_callee(w, f, c_)
+            if hfi is not None and reads_in(w.fn_of(hfi), depth - 1, seen):
+              return True
+        return False
+      if reads_in(top, 3, set()):
+        raise AnalysisError("%s: %s is read in the remover (or a helper of it) but the removal "
+                            "of its records could not be identified" % (top.qualname, site))
       run.ob(R2, top.qualname, "%s -> removal of %s" % (site, child),
              "the records listed by the accessor are passed to a removal call (%s)" % why, False,
              fi=top.fi)
@@ -297,6 +336,10 @@ def r3_auto_remove(run, w):
              "named exception (%s): the formula reports for the records it covers"
              % AUTOREMOVE_PARTIAL[tname], bool(rep), fi=fi, nontrivial=False)
       continue
+    if not rep and H.hidden_in_callees(
+        w, fn, lambda c, nm, f: isinstance(c.func, ast.Attribute) and
+        c.func.attr == "setAutoRemove", depth=2):
+      raise AnalysisError("%s: setAutoRemove is only called inside a helper" % fi.qualname)
     ok = bool(rep) and cfg.dominated_by(cfg.exit.id, rep)
     run.ob(R3, fi.qualname, "table.docmodel.setAutoRemove(rec, <cond>)",
            "every evaluation of the formula reports its verdict for its own record (marks or "
@@ -305,7 +348,7 @@ def r3_auto_remove(run, w):
   if n_formulas < 2:
     raise AnalysisError("MetaTableExtras: setAutoRemove formulas not found")
   # DocModel.setAutoRemove: add when true, discard otherwise
-  sa = w.fn("docmodel.DocModel.setAutoRemove")
+  sa = H.inlined_fn(w, "docmodel.DocModel.setAutoRemove")
   ps = sa.fi.params()
   adds = {n.id for (n, c, nm) in sa.calls() if endswith(nm, "_auto_remove_set.add") and
           len(c.args) == 1 and H.canon(sa, c.args[0]) == ps[1]}
@@ -323,7 +366,7 @@ def r3_auto_remove(run, w):
   run.ob(R3, sa.qualname, "if yes: set.add(record) else: set.discard(record)",
          "a verdict marks the record, a later opposite verdict unmarks it", ok, fi=sa.fi)
   # apply_auto_removes
-  ar = w.fn("docmodel.DocModel.apply_auto_removes")
+  ar = H.inlined_fn(w, "docmodel.DocModel.apply_auto_removes")
   cfg = ar.cfg
   du = DefUse(ar)
   is_set = lambda x: isinstance(x, ast.Attribute) and x.attr == "_auto_remove_set"
@@ -428,6 +471,16 @@ def r3_auto_remove(run, w):
            "the setAutoRemove formulas have been evaluated when the set is first consulted",
            bool(allrec) and all(cfg.dominated_by(a_, allrec) for a_ in A), fi=fi, node=first.stmt)
     post = {m.id for (m, c2, nm2) in calls if endswith(nm2, "out_actions.flush_calc_changes")}
+    is_flush = lambda c, nm, f: isinstance(c.func, ast.Attribute) and \
+        c.func.attr == "flush_calc_changes"
+    if not post and H.hidden_in_callees(w, fn, is_flush, depth=4):
+      raise AnalysisError("%s: flush_calc_changes is only called inside a function that could "
+                          "not be read in place" % fi.qualname)
+    if not allrec and H.hidden_in_callees(
+        w, fn, lambda c, nm, f: isinstance(c.func, ast.Attribute) and
+        c.func.attr == "_bring_all_up_to_date", depth=4):
+      raise AnalysisError("%s: _bring_all_up_to_date is only called inside a function that "
+                          "could not be read in place" % fi.qualname)
     run.ob(R3, fi.qualname, "loop before out_actions.flush_calc_changes()",
            "the removals are part of the bundle being returned",
            bool(post) and all(cfg.dominated_by(p, A) and not (A & cfg.reach_after({p}))
@@ -454,7 +507,7 @@ def r4_raw_section(run, w):
                nontrivial=False)
   if n == 0:
     raise AnalysisError("doAddTable has no callers")
-  fn = w.fn_of(da)
+  fn = H.inlined_fn(w, da.qualname)
   cfg = fn.cfg
   du = DefUse(fn)
   rd = H.ReachDefs(fn, du)
@@ -499,6 +552,17 @@ def r4_raw_section(run, w):
         for k, v in zip(a_v.keys, a_v.values):
           if k is not None and H.const_value(k) == (True, "rawViewSectionRef"):
             upd.append((nn, c, v))
+  if not upd:
+    # no write of rawViewSectionRef through UpdateRecord('_grist_Tables', ...) with a literal dict:
+    # if nothing here names that field at all it is gone (violation below); if it is named in some
+    # other way the rule cannot tell how it is written
+    named = [x for x in ast.walk(fn.node) if (isinstance(x, ast.Constant) and
+                                              x.value == "rawViewSectionRef") or
+             (isinstance(x, ast.keyword) and x.arg == "rawViewSectionRef")]
+    if named or H.mentions_in_reach(
+        w, fn, lambda x: isinstance(x, ast.Constant) and x.value == "rawViewSectionRef", depth=2):
+      raise AnalysisError("doAddTable: rawViewSectionRef is written in a way the rule does not "
+                          "recognise")
   ok = False
   if len(upd) == 1:
     nn, c, v = upd[0]
